@@ -423,6 +423,9 @@ def run(prop):
     ck = vf.Check(prop, "model_checking", tier=a.tier, seed=a.seed)
     if a.replay:
         rec = json.load(open(a.replay))["replay"]
+        if rec["case"].get("fam") == "NpmRead":
+            ck.count(part_npmread(ck, only=rec["case"]))
+            return ck.finish()
         cases = [rec["case"]]
         emitted = 1
     else:
@@ -499,6 +502,8 @@ def run(prop):
     # ---- trace validation by TLC: every invariant at every step of every recorded pipeline ----
     validate_traces(ck, prop, good_traces, bad_traces)
 
+    if prop == "C12" and not a.replay:
+        evals += part_npmread(ck)
     ck.count(evals)
     ck.cov["distinct_nontrivial"] = nontrivial
     ck.cov["cases_emitted"] = emitted
@@ -526,6 +531,59 @@ def run(prop):
         "'the version u.name resolves to' = the node the root edge for u.name points to, else the unique node of that name in the real resolved graph",
         "the second analysis is FixVulns on a copy of the written manifest with the same filter options and every upgrade level None"]
     return ck.finish()
+
+
+def part_npmread(ck, only=None):
+    """NpmRead.tla: which direct requirements the package.json reader hands to resolution. TLC checks the transcription of the
+    three section loops against the declarative result under every map-iteration order (and that the by-package lookup of
+    the code before c419abf5 is refuted), emits every scenario, and the real reader is run on each of them several times."""
+    if only is not None:
+        cases = [only]
+    else:
+        dev = vf.tlc("NpmRead", "NpmRead-dev.cfg", timeout=600, collect=False)
+        if dev.ok or dev.violated != "ReadIsWant":
+            raise vf.NotAVerdict("NpmRead-dev.cfg: the by-package lookup must violate ReadIsWant (model sanity), got %r" % dev.violated)
+        san = vf.tlc("NpmRead", "NpmRead-sanity.cfg", timeout=600, collect=False)
+        if san.ok or san.violated != "Sanity":
+            raise vf.NotAVerdict("NpmRead-sanity.cfg must be violated (vacuity guard), got %r" % san.violated)
+        cfg = "NpmRead-gen5.cfg" if ck.thorough() else "NpmRead-gen4.cfg"
+        res = vf.require_ok(vf.tlc("NpmRead", cfg, timeout=3000), "NpmRead/" + cfg)
+        vf.log("[tlc] NpmRead/%s: %d generated / %d distinct, %d scenarios, %.1fs" % (cfg, res.generated, res.distinct, len(res.cases), res.wall))
+        cases = []
+        seen = set()
+        for c in res.cases:
+            c = {"fam": "NpmRead", "cfg": cfg, "decl": c["decl"], "want": c["want"], "reps": 12 if ck.thorough() else 8}
+            c["id"] = vf.case_id({"decl": c["decl"]})
+            if c["id"] not in seen:
+                seen.add(c["id"])
+                cases.append(c)
+        ck.cov["npmread_model"] = {"cfg": cfg, "generated": res.generated, "distinct": res.distinct, "scenarios": len(cases)}
+    outs = vf.run_harness("vremfix", "npmread", cases, timeout=1800)
+    if len(outs) != len(cases):
+        raise vf.NotAVerdict("npmread harness returned %d of %d cases" % (len(outs), len(cases)))
+    outs.sort(key=lambda o: o["i"])
+    key = lambda r: (r["pkg"], r["as"], r["ver"], bool(r["opt"]), r["group"])
+    nrun = ndouble = nbad = 0
+    for o in outs:
+        c = cases[o["i"]]
+        nrun += o["runs"]
+        want = sorted(key(r) for r in c["want"])
+        pk = [r["pkg"] for r in c["want"]]
+        ndouble += 1 if len(pk) != len(set(pk)) else 0
+        if o["errs"]:
+            raise vf.NotAVerdict("npmread: the reader rejected a generated package.json: %s" % o["errs"][0])
+        bad = [ob for ob in o["obs"] if sorted(key(r) for r in ob) != want]
+        if bad or len(o["obs"]) != 1:
+            nbad += 1
+            if nbad > 40:           # every violation counts for the verdict; replay files are written for the first 40
+                ck.cov["violations_without_replay_file"] = ck.cov.get("violations_without_replay_file", 0) + 1
+                continue
+            ck.violation("C12 [reader] package.json declaring %s: the requirements handed to resolution must be %s on every read; "
+                         "%d reads gave %d different result(s), e.g. %s" % (json.dumps(c["decl"], sort_keys=True), want, o["runs"], len(o["obs"]),
+                                                                               sorted(key(r) for r in (bad[0] if bad else o["obs"][-1]))),
+                         {"case": c, "observed": o["obs"]})
+    ck.cov["npmread"] = {"scenarios": len(cases), "reads": nrun, "scenarios_with_one_package_declared_under_two_keys": ndouble}
+    return len(cases)
 
 
 _open = None
